@@ -815,10 +815,10 @@ func ruleStickyTable(c *Ctx, r *Report, rule string) {
 		emits := map[string]bool{}
 		walkCalls(fd.Body, false, func(call *ast.CallExpr) {
 			if c.calleeName(call) == "lexer.emit" && len(call.Args) == 1 {
-				if id, ok := stripParens(call.Args[0]).(*ast.Ident); ok {
-					emits[id.Name] = true
+				if v, ok := c.intConst(call.Args[0]); ok {
+					emits[constNameOf(constsOfType(c.Bcl, "tokenType"), v)] = true
 				} else {
-					emits["word"] = true
+					emits["word"] = true // a token type computed at run time: keyword or identifier
 				}
 			}
 		})
@@ -833,7 +833,7 @@ func ruleStickyTable(c *Ctx, r *Report, rule string) {
 			kind = "tFLOAT"
 		case len(emits) == 1 && emits["tSTR"]:
 			kind = "tSTR"
-		case emits["tIDENT"]:
+		case emits["tIDENT"] || emits["word"]:
 			kind = "word"
 		default:
 			continue
